@@ -166,7 +166,7 @@ class Ctx:
                 res[parts[i]] = []
             else:
                 ax = re.findall(r'^([A-Za-z_][\w\.\']*)\s*:', body, re.M)
-                res[parts[i]] = ax
+                res[parts[i]] = [a for a in ax if a not in ('Axioms', 'Axiom')]
         for t in theorems:
             self.obligations.append(('thm:' + t, t in res))
             if t not in res:
